@@ -382,3 +382,158 @@ Section AttrUpdates.
     apply (prepare_then_store_cow l cl d k a sp v Fc Km Hk Hl).
   Qed.
 End AttrUpdates.
+
+(* ------------------------------------------------------------------ *)
+(** * In-place re-preparation of the value the attribute holds:
+      transform_<a>(f, _inplace=True), update_<a>(_inplace=True) *)
+Lemma T_or {A} (P A1 B1 : heap_t -> Prop) (m : M A) (Q : A -> heap_t -> Prop) (E : heap_t -> Prop) :
+  T (fun h => P h /\ A1 h) m Q E -> T (fun h => P h /\ B1 h) m Q E ->
+  T (fun h => P h /\ (A1 h \/ B1 h)) m Q E.
+Proof. intros H1 H2 s [Ps [Ha|Hb]]; [apply H1|apply H2]; auto. Qed.
+
+Section Held.
+  Variable ct : ctable.
+  Hypothesis Hflat : flat_table ct.
+  Hypothesis Hninv : inval_spec ct.
+  Notation Inv := (Inv ct).
+  Notation rec := (exec ct XFUEL).
+  Local Opaque exec XFUEL.
+  Let HrecMv := Hmv ct Hflat XFUEL.
+
+  (* prepare_attr_value on the collection the attribute holds, or on a value nobody references *)
+  Lemma prepare_attr_value_held fam sp l cl d fc v :
+    leaf_coll sp fam ->
+    T (fun h => IF ct (inst_at l cl d) h /\ conf ct h (VRef fc) sp /\ (v = VRef fc \/ loose h v))
+      (prepare_attr_value ct rec sp l v None)
+      (fun r h => IF ct (inst_at l cl d) h /\ (r = VRef fc \/ loose h r))
+      (IF ct (inst_at l cl d)).
+  Proof.
+    intros Hl. pose proof Hl as (Hf & Sc & _).
+    set (F := inst_at l cl d).
+    assert (SF : cstable F) by apply cstable_inst_at.
+    set (G := fun h => F h /\ conf ct h (VRef fc) sp /\ (v = VRef fc \/ loose h v)).
+    assert (SG : astable G).
+    { intros h o S Nr (Fh & C & D). split; [apply SF; auto|]. split.
+      - apply (astable_check ct (VRef fc) (a_ty sp)); auto. now apply scalar_coll_flat'.
+      - destruct D as [E|L]; [left; exact E|right; now apply astable_loose]. }
+    assert (Ec : ty_is_collection (a_ty sp) = true)
+      by (destruct (a_ty sp); simpl in Hf; try discriminate; reflexivity).
+    assert (B : T (fun h => IF ct F h /\ conf ct h (VRef fc) sp /\ (v = VRef fc \/ loose h v))
+                  (v' <- rec (KMutateValue (mkmv VMissing v false
+                                (match a_prepare sp with Some f => PAttr f | None => PNone end)
+                                None (Some (ctor_of_ty (a_ty sp))) (Some (a_ty sp)) None [] false)) ;;
+                   if ty_is_collection (a_ty sp) then coll_prepare ct rec sp l v' else ret v')
+                  (fun r h => IF ct F h /\ (r = VRef fc \/ loose h r)) (IF ct F)).
+    { eapply T_bind with (Q := fun v' h => (IF ct F h /\ conf ct h (VRef fc) sp) /\ (v' = VRef fc \/ loose h v')).
+      - eapply T_conseq.
+        + apply (HrecMv _ G SG). eapply attr_mv_plain'; eauto.
+        + intros h [[I Fh] [C D]]. split; auto. split; auto.
+        + intros r h [[I (Fh & C & D)] R]. split; [split; [split; auto|exact C]|].
+          destruct R as [[-> _]|[->|R]]; [right; exact Logic.I|exact D|right; exact R].
+        + intros h [I (Fh & _)]. split; auto.
+      - intros v'. rewrite Ec. apply T_or.
+        + apply T_pull. intros ->.
+          apply (coll_prepare_held ct Hflat rec HrecMv fam sp l fc F Hl SF).
+        + eapply T_conseq; [apply (coll_prepare_leaf ct Hflat rec HrecMv fam sp l v' F Hl SF)| | |auto].
+          * intros h [[H _] L]. split; auto.
+          * intros r h [H L]. split; auto. }
+    unfold prepare_attr_value. destruct v; try exact B.
+    apply T_ret. intros h [H _]. split; auto. right. exact Logic.I.
+  Qed.
+
+  (* old <- current value (in place: the object itself); v <- mutate_value(old, new, transform);
+     with_<a>(v, _inplace=True) *)
+  Lemma reprepare_inplace l a sp new xf s cl d k :
+    Inv (heap s) -> nth_error (heap s) l = Some (OInst cl d) -> lookup_cls ct cl = Some k ->
+    lookup_attr k a = Some sp -> leaf_attr sp -> loose (heap s) new -> xf_plain xf ->
+    (assoc a d = None -> nonref (class_default k a)) ->
+    Inv (heap (snd ((old <- current_value ct l sp true true ;;
+                     v <- rec (KMutateValue (mkmv old new false PNone None
+                                (Some (ctor_of_ty (a_ty sp))) (Some (a_ty sp)) xf [] false)) ;;
+                     with_attr ct l sp v None true) s))).
+  Proof.
+    intros I N Hk Ha Hl Ln Hx D.
+    pose proof (lookup_attr_name k a sp Ha) as Hn.
+    unfold current_value. cbn [orb]. unfold bind at 1. unfold bind at 1. rewrite Hn.
+    rewrite (getattr_default_run ct l a s cl d k N Hk). cbn [ret].
+    set (v0 := match assoc a d with Some v => v | None => class_default k a end).
+    (* either the attribute holds a collection, or the old value is a non-reference *)
+    assert (Cases : (exists fam fc, leaf_coll sp fam /\ assoc a d = Some (VRef fc) /\ v0 = VRef fc) \/ nonref v0).
+    { unfold v0. destruct (assoc a d) as [v|] eqn:As.
+      - destruct Hl as [[fam Hlc]|Hls].
+        + left. destruct (held_coll ct (heap s) l cl d k a sp fam v I N Hk Ha Hlc As) as [fc [-> _]].
+          exists fam, fc. auto.
+        + right. pose proof (held_flat ct (heap s) l cl d k a sp v I N Hk Ha (or_intror Hls) As) as Fv.
+          destruct Hls as (Scl & _). destruct I as [T _].
+          assert (C : check_type FUEL ct (heap s) v (a_ty sp) = true) by (eapply T; eauto; now apply assoc_in).
+          intros c ->. exact (scalar_check_noref ct (heap s) FUEL (a_ty sp) (VRef c) Scl C c eq_refl).
+      - right. apply D. reflexivity. }
+    destruct Cases as [(fam & fc & Hlc & As & Ev)|Nv].
+    - (* the held collection *)
+      rewrite Ev.
+      destruct (held_coll ct (heap s) l cl d k a sp fam (VRef fc) I N Hk Ha Hlc As) as [fc' [_ C]].
+      eapply (T_run (fun h => (IF ct (inst_at l cl d) h /\ conf ct h (VRef fc) sp) /\ loose h new) _
+                    (fun _ h => Inv h) Inv Inv s); auto; [|split; [split; [split; auto|exact C]|exact Ln]].
+      pose proof Hlc as (Hf & Sc & _).
+      eapply T_bind with (Q := fun v h => IF ct (inst_at l cl d) h /\ conf ct h (VRef fc) sp /\ (v = VRef fc \/ loose h v)).
+      { set (G := fun h => inst_at l cl d h /\ conf ct h (VRef fc) sp /\ loose h new).
+        assert (SG : astable G).
+        { intros h o S Nr (Fh & Cc & L). split; [apply astable_inst_at; auto|]. split.
+          - apply (astable_check ct (VRef fc) (a_ty sp)); auto. now apply scalar_coll_flat'.
+          - now apply astable_loose. }
+        eapply T_conseq; [apply (HrecMv _ G SG (upd_mv_plain sp (VRef fc) new xf Hl Hx))| | |].
+        - intros h [[[I0 N0] C0] L0]. split; auto. split; auto.
+        - intros r h [[I0 (N0 & C0 & L0)] R]. split; [split; auto|]. split; auto.
+          destruct R as [[-> _]|[->|R]]; auto.
+        - intros h [I0 _]. exact I0. }
+      intros v. unfold with_attr. rewrite Hn.
+      eapply T_bind with (Q := fun r h => IF ct (inst_at l cl d) h /\ (r = VRef fc \/ loose h r)).
+      + eapply T_conseq; [apply (prepare_attr_value_held fam sp l cl d fc v Hlc)|auto|auto|intros h [H _]; exact H].
+      + intros value. eapply T_pre; [|apply (mutate_attr_inplace ct Hflat Hninv XFUEL l a value true)].
+        intros h [[I0 N0] [->|L0]]; (split; [exact I0|]); (split; [|discriminate]).
+        * right. exists cl, d. auto.
+        * left. exact L0.
+    - (* the old value is a non-reference: everything in flight is unreferenced *)
+      eapply (T_run (fun h => Inv h /\ loose h new) _ (fun _ h => Inv h) Inv Inv s); auto.
+      eapply T_bind with (Q := fun v h => Inv h /\ loose h v).
+      { eapply T_conseq; [apply (HrecMv _ (fun h => loose h new) (astable_loose _) (upd_mv_plain sp v0 new xf Hl Hx))| | |].
+        - intros h [I0 L0]. split; auto.
+        - intros r h [[I0 L0] R]. split; auto.
+          destruct R as [[-> _]|[->|R]]; auto. now apply nonref_loose.
+        - intros h [I0 _]. exact I0. }
+      intros v. unfold with_attr. rewrite Hn.
+      apply (prepare_then_store_any ct Hflat Hninv XFUEL XFUEL l a sp v Hl).
+  Qed.
+
+  (* obj.transform_<a>(f, _inplace=True), f a quiet function, no attribute transforms *)
+  Theorem transform_inplace l a hh s cl d k :
+    h_inplace hh = true -> h_kwfn hh = [] -> oqfn (h_fn hh) ->
+    Inv (heap s) -> nth_error (heap s) l = Some (OInst cl d) -> lookup_cls ct cl = Some k ->
+    (forall sp, lookup_attr k a = Some sp -> leaf_attr sp) ->
+    (assoc a d = None -> nonref (class_default k a)) ->
+    Inv (heap (snd (run_helper ct l (HTransform a) hh s))).
+  Proof.
+    intros Hin Hkf Hq I N Hk Hla D. unfold run_helper. destruct (negb (h_if hh)); [exact I|].
+    rewrite Hin, Hkf.
+    unfold bind at 1. rewrite (spec_for_run ct l a s cl d k N Hk).
+    destruct (lookup_attr k a) as [sp|] eqn:Ha; [|exact I]. cbn [snd].
+    apply (reprepare_inplace l a sp VMissing
+             (match h_fn hh with Some f => Some (XFn f, None) | None => None end) s cl d k I N Hk Ha (Hla sp eq_refl));
+      auto; [exact Logic.I|destruct (h_fn hh); simpl; auto].
+  Qed.
+
+  (* obj.update_<a>(_inplace=True) with no new value: the held value is prepared again *)
+  Theorem update_inplace_noarg l a hh s cl d k :
+    h_inplace hh = true -> h_kw hh = None -> pos0 hh = VMissing ->
+    Inv (heap s) -> nth_error (heap s) l = Some (OInst cl d) -> lookup_cls ct cl = Some k ->
+    (forall sp, lookup_attr k a = Some sp -> leaf_attr sp) ->
+    (assoc a d = None -> nonref (class_default k a)) ->
+    Inv (heap (snd (run_helper ct l (HUpdate a) hh s))).
+  Proof.
+    intros Hin Hkw Hp I N Hk Hla D. unfold run_helper. destruct (negb (h_if hh)); [exact I|].
+    rewrite Hin, Hkw, Hp. cbn [is_sentinel].
+    unfold bind at 1. rewrite (spec_for_run ct l a s cl d k N Hk).
+    destruct (lookup_attr k a) as [sp|] eqn:Ha; [|exact I]. cbn [snd].
+    apply (reprepare_inplace l a sp VMissing None s cl d k I N Hk Ha (Hla sp eq_refl)); auto; exact Logic.I.
+  Qed.
+End Held.
